@@ -16,9 +16,9 @@ TraceAdvance(t) ==
     /\ t > now /\ up = 0
     /\ \A k \in Keys : ~(timer[k] >= 0 /\ now >= timer[k])
     /\ \A k \in Keys : timer[k] >= 0 => timer[k] >= t
-    /\ \A i \in 1 .. Len(fl) : fl[i].busy
+    /\ \A i \in 1 .. Len(fl) : fl[i].busy \/ Settled(i)
     /\ now' = t
-    /\ UNCHANGED <<arrived, buf, timer, fl, batches, arrAt, rc, fired, up, emitDone, trig>>
+    /\ UNCHANGED <<arrived, buf, timer, fl, batches, arrAt, rc, fired, up, emitDone, trig, raised>>
 
 \* index of the in-flight flush carrying exactly the batch es
 FlushOf(es) == CHOOSE i \in 1 .. Len(fl) : fl[i].es = es
@@ -30,6 +30,8 @@ Event(ev) ==
       [] ev.ev = "FlushRelease" -> (\E i \in 1 .. Len(fl) : fl[i].es = ev.es) /\ FlushRelease(FlushOf(ev.es))
                                    /\ NewFired = ev.fired
       [] ev.ev = "UpRelease" -> UpRelease(ev.e) /\ rc'[ev.e] = ev.count /\ (ev.fired <=> (Len(fired') > Len(fired)))
+      [] ev.ev = "ConsumerFail" -> (\E i \in 1 .. Len(fl) : fl[i].es = ev.es) /\ ConsumerFail(FlushOf(ev.es))
+      [] ev.ev = "EmitRaised" -> EmitRaised(ev.e)
       [] ev.ev = "EmitDone" -> EmitDone(ev.e)
       [] ev.ev = "Advance" -> TraceAdvance(ev.now)
       [] ev.ev = "ObsBuf" -> (\A k \in Keys : buf[k] = ev.buf[k + 1]) /\ Same
@@ -40,9 +42,10 @@ Event(ev) ==
       [] OTHER -> FALSE
 
 TraceNext ==
-    /\ l <= Len(T) /\ Event(T[l])
-    /\ l' = l + 1 /\ TLCSet(tid, Max(TLCGet(tid), l + 1)) /\ UNCHANGED tid
-    /\ ((CbSafe /\ ~CbSafe') => PrintT(<<"UNSAFE", Traces[tid].id, l>>))
+    \/ /\ l <= Len(T) /\ Event(T[l])
+       /\ l' = l + 1 /\ TLCSet(tid, Max(TLCGet(tid), l + 1)) /\ UNCHANGED tid
+       /\ ((CbSafe /\ ~CbSafe') => PrintT(<<"UNSAFE", Traces[tid].id, l>>))
+    \/ /\ l <= Len(T) /\ (\E i \in 1 .. NE : FlushAbort(i)) /\ UNCHANGED <<tid, l>>
 
 TraceSpec == TraceInit /\ [][TraceNext]_tvars
 TraceInv == TypeOK /\ Conservation /\ OneKeyPerBatch /\ SizeBound /\ NoEmptyBatch /\ PartialOnlyOnTimeout
